@@ -89,6 +89,10 @@ def gen_cases(tier, seed):
         cases.append({"id": "MI/%d/%d" % (seed, i), "multi_index_batches": True, "level_kind": ["str", "int", "dt"][i % 3], "n": [9, 15, 60, 400][(i // 3) % 4],
                       "nbatch": 2 + i % 3, "scheme": ["simple", "hive"][(i // 2) % 2], "rgo": [None, 4][(i // 5) % 2], "via_handle": bool(i % 4 == 3),
                       "frame": {"cols": []}, "opts": {}})
+    # --- an append made through a handle DERIVED from the dataset's handle (a slice of its row groups)
+    for i in range(6 if tier == "quick" else 40):
+        cases.append({"id": "SL/%d/%d" % (seed, i), "sliced_handle_append": True, "slice": [[0, 1], [1, 3], [0, 2]][i % 3], "partitioned": bool(i % 2),
+                      "frame": {"cols": []}, "opts": {}})
     return cases
 
 
@@ -171,9 +175,71 @@ def run_multi_index(case):
         C.cleanup(path)
 
 
+def run_sliced_handle(case):
+    """pf[a:b].write_row_groups(df) on a multi-file dataset: the rows are added to the dataset, or the call is refused - the row groups
+    outside the slice, and the files that hold them, are not the slice's to drop."""
+    import pandas as pd
+    import fastparquet
+    from vf.props import common as C
+    counters = {}
+    res = {"features": [], "nontrivial": False, "failures": [], "counters": counters}
+    path = C.fresh_path("")
+    try:
+        n = 12
+        df = pd.DataFrame({"rid": np.arange(n, dtype="int64"), "v": np.arange(n) / 2.0, "p": np.array(["x", "y"], dtype=object)[np.arange(n) % 2]})
+        kw = {"file_scheme": "hive", "row_group_offsets": 3}
+        if case["partitioned"]:
+            kw["partition_on"] = ["p"]
+        fastparquet.write(path, df, **kw)
+        before = {}
+        for dp, _, fns in os.walk(path):
+            for fn in fns:
+                if fn.endswith(".parquet"):
+                    with open(os.path.join(dp, fn), "rb") as f:
+                        before[os.path.relpath(os.path.join(dp, fn), path)] = f.read()
+        new = pd.DataFrame({"rid": np.arange(100, 104, dtype="int64"), "v": np.arange(4) / 4.0, "p": np.array(["x", "y", "x", "y"], dtype=object)})
+        a, b = case["slice"]
+        ctx = {"slice": case["slice"], "partitioned": case["partitioned"], "row_groups": len(fastparquet.ParquetFile(path).row_groups)}
+        refused = None
+        try:
+            fastparquet.ParquetFile(path)[a:b].write_row_groups(new)
+        except Exception as e:
+            refused = C.exc_shape(e)
+            counters["appends_through_a_sliced_handle_refused"] = 1
+        changed = []
+        for rel, old in before.items():
+            fp_ = os.path.join(path, rel)
+            if not os.path.exists(fp_):
+                changed.append(rel + " (gone)")
+            else:
+                with open(fp_, "rb") as f:
+                    if f.read() != old:
+                        changed.append(rel)
+        if changed:
+            res["failures"].append({"kind": "existing_data_files_changed_by_append_through_sliced_handle", "files": changed[:4], "refused": refused, **ctx})
+        try:
+            got = sorted(int(x) for x in fastparquet.ParquetFile(path).to_pandas(columns=["rid"], index=False)["rid"].tolist())
+        except Exception as e:
+            res["failures"].append({"kind": "dataset_unreadable_after_append_through_sliced_handle", "refused": refused, **ctx, **C.exc_shape(e)})
+        else:
+            want = sorted(df["rid"].tolist() + ([] if refused else new["rid"].tolist()))
+            if got != want:
+                res["failures"].append({"kind": "rows_lost_by_append_through_sliced_handle", "missing": sorted(set(want) - set(got))[:8], "unexpected": sorted(set(got) - set(want))[:8],
+                                        "refused": refused, **ctx})
+        counters["appends_through_a_sliced_handle_checked"] = 1
+        res["outcome"] = "ok"
+        res["nontrivial"] = True
+        res["features"] = [str(("sliced_handle", tuple(case["slice"]), case["partitioned"]))]
+        return res
+    finally:
+        C.cleanup(path)
+
+
 def run_case(case):
     if case.get("multi_index_batches"):
         return run_multi_index(case)
+    if case.get("sliced_handle_append"):
+        return run_sliced_handle(case)
     import hashlib
     import pandas as pd
     import fastparquet
@@ -353,4 +419,4 @@ def run_case(case):
 
 
 def required(tier):
-    return {"appends_verified": 300, "prefix_hashes_compared": 80, "data_files_compared": 300, "audit_events": 500, "appends_with_reordered_columns": 30, "appends_through_a_kept_handle": 30, "reads_through_the_appending_handle": 60, "appends_with_a_coarser_time_unit": 8, "appends_to_multi_indexed_datasets_verified": 20}
+    return {"appends_verified": 300, "prefix_hashes_compared": 80, "data_files_compared": 300, "audit_events": 500, "appends_with_reordered_columns": 30, "appends_through_a_kept_handle": 30, "reads_through_the_appending_handle": 60, "appends_with_a_coarser_time_unit": 8, "appends_to_multi_indexed_datasets_verified": 20, "appends_through_a_sliced_handle_checked": 4}
